@@ -3,13 +3,15 @@ from __future__ import annotations
 
 from fractions import Fraction as F
 
-from .. import core, oracle, rulegen, rules, ruleprops
+from .. import core, history, oracle, rulegen, rules, ruleprops
 from ..core import Case
 from ..ruleprops import violation
 
 RULE = ("seeded approval elections x (tie rule, Profile/MultiProfile, initial allocation, initial loads, resolute/irresolute); predicate = "
         "independent money-process simulation on the expanded voter list with the implementation's two stated conventions; "
-        "non-trivial = at least 2 purchases and the process stopped by the budget (a project left out)")
+        "non-trivial = at least 2 purchases and the process stopped by the budget (a project left out); plus histories on ONE profile "
+        "object (Profile / MultiProfile) that is mutated in place between calls (append, extend, +=, insert, item assignment, deletion, "
+        "ballots edited in place, multiplicities changed): every call is judged by the same predicate on the voters present at that call")
 ASSUMPTIONS = ["approval ballots", "feasible initial allocation", "conventions of the implementation taken as given (projects above the whole budget ignored; unsupported tail)"]
 
 
@@ -57,9 +59,17 @@ def pairs(ctx, n):
         yield case, cfg
 
 
+def history_cfg(rng, case, multi):
+    """configuration of one call inside a history: any tie rule, initial allocation, initial loads, resolute or not"""
+    cfg = rulegen.gen_rule_cfg(rng, case, rules=("phragmen",), allow_refuse=False)
+    cfg["multi"] = multi
+    return cfg
+
+
 def run(ctx):
     ctx.rule = RULE
     items = ruleprops.run_items(ctx, pairs(ctx, ctx.scale(2000, 20000)), predicate, nontrivial)
+    history.run_profile_history(ctx, ctx.scale(500, 5000), predicate, history_cfg)
     ctx.extra["with_initial_loads"] = sum(1 for it in items if it.cfg.get("loads") is not None)
     ctx.extra["with_initial_allocation"] = sum(1 for it in items if it.cfg.get("init"))
 
@@ -67,9 +77,12 @@ def run(ctx):
 def search(ctx, disagreements):
     ctx.rule = RULE
     ruleprops.run_items(ctx, pairs(ctx, 10000), predicate, nontrivial, compare=False)
+    history.run_profile_history(ctx, 3000, predicate, history_cfg)
 
 
 def replay(payload):
+    if payload.get("cfg", {}).get("profile_history"):
+        return history.replay_profile_history(payload, predicate)
     case = Case.from_json(payload["case"])
     cfg = ruleprops.cfg_from_json(payload["cfg"])
     built = rules.Built(case, multi=cfg.get("multi", False))
